@@ -139,16 +139,42 @@ class Universe:
 
     # -- observed class relations ----------------------------------------------------------
     def observed_tables(self):
-        reg = TargetRegistry(register_default_types=False)
-        dreg = _DEFAULT_SCOPE[TargetRegistry]
-        autof = {'get': reg._op_auto_map['get'], 'iterate': reg._op_auto_map['iterate'],
-                 'assign': dreg._op_auto_map['assign'], 'delete': dreg._op_auto_map['delete'],
-                 'keys': lambda t: False}
         sub = {a: sorted(b for b in self.types if issubclass(self.real[a], self.real[b])) for a in self.types}
         inst = {a: sorted(c for c in self.types if isinstance(self.make(a), self.real[c])) for a in self.concrete}
-        auto = {op: {t: fn_tag(autof[op](self.real[t]))['o'] for t in self.types} for op in ALL_OPS}
+        auto = self._auto_table()
         mro = {a: [self.name[c] for c in self.real[a].__mro__] for a in self.concrete}
         return dict(sub=sub, inst=inst, auto=auto, mro=mro)
+
+    def _auto_table(self):
+        """handler autodiscovered for (op, type).  Shortcut: the registry's autodiscovery functions, if its private
+        representation still offers them; otherwise derived from public behaviour: what a bare Glommer does for an
+        instance of T after a keyword-less register(T) (the two duck types cannot be instantiated: their documented
+        object-like defaults are used)."""
+        try:
+            reg = TargetRegistry(register_default_types=False)
+            dreg = _DEFAULT_SCOPE[TargetRegistry]
+            autof = {'get': reg._op_auto_map['get'], 'iterate': reg._op_auto_map['iterate'],
+                     'assign': dreg._op_auto_map['assign'], 'delete': dreg._op_auto_map['delete'],
+                     'keys': lambda t: False}
+            return {op: {t: fn_tag(autof[op](self.real[t]))['o'] for t in self.types} for op in ALL_OPS}
+        except Exception:
+            UNOBSERVABLE['autodiscovery functions'] = UNOBSERVABLE.get('autodiscovery functions', 0) + 1
+        duck = {'get': 'getattr', 'iterate': 'False', 'keys': 'False', 'assign': 'setattr', 'delete': 'delattr'}
+        auto = {op: {} for op in ALL_OPS}
+        for t in self.types:
+            if t in DUCKS:
+                for op in ALL_OPS:
+                    auto[op][t] = duck[op]
+                continue
+            env = Env(self, restore=False)
+            env.new('g2')
+            env.g['g2'].register(self.real[t])
+            for op in ALL_OPS:
+                tags = self.consistent_tags(env.observe('g2', op, t), op, t)
+                if not tags:
+                    raise vlib.MachineryError('autodiscovered %s handler of %s has no recognisable effect' % (op, t))
+                auto[op][t] = tags[0]['o']
+        return auto
 
     def verify(self, doc):
         """the specification's derived tables must equal what Python says about the real classes"""
@@ -207,17 +233,26 @@ class Universe:
 
 
 def _clone(x):
+    """copy of the containers (dicts of any kind, lists, sets, tuples), sharing keys, types and handler objects"""
     if isinstance(x, dict):
         return type(x)((k, _clone(v)) for k, v in x.items())
+    if isinstance(x, (list, set, frozenset)):
+        return type(x)(_clone(v) for v in x)
+    if type(x) is tuple:
+        return tuple(_clone(v) for v in x)
     return x
 
 
+# the module-level registry is process-global: whatever attributes it has right after import (this module imports
+# glom before anything can have used it) are its pristine state; no attribute is named
 _DEFAULT_REG = _DEFAULT_SCOPE[TargetRegistry]
 _PRISTINE = {k: _clone(v) for k, v in vars(_DEFAULT_REG).items()}
-_PRISTINE['_type_cache'] = {}
+UNOBSERVABLE = {}      # parts of the private representation the harness could not read (mechanism comparison skipped)
 
 
 def restore_default_registry():
+    """every attribute found at import is replaced by a copy of its pristine value, attributes that appeared later
+    are deleted"""
     d = vars(_DEFAULT_REG)
     d.clear()
     for k, v in _PRISTINE.items():
@@ -225,20 +260,21 @@ def restore_default_registry():
 
 
 def known_order():
-    """iteration order of the set of known types register_op('assign') saw when glom.mutation was
-    imported in this process (same elements inserted in the same order into a fresh set)"""
-    r = TargetRegistry()
-    known = set(sum([list(m.keys()) for m in r._op_type_map.values()], []))
+    """iteration order of the set of known types register_op('assign') saw when glom.mutation was imported in this
+    process: the default types inserted into a fresh set in their registration order (feeds only the transcribed
+    mechanism: shape of the assign / delete trees)"""
+    known = set([object, dict, list, tuple, OrderedDict, _AbstractIterable, _ObjStyleKeys])
     return [t.__name__ for t in known]
 
 
 class Env:
     """the registries of one behaviour"""
 
-    def __init__(self, universe):
+    def __init__(self, universe, restore=True):
         self.u = universe
         self.g = {}
-        restore_default_registry()
+        if restore:
+            restore_default_registry()
 
     def new(self, r):
         self.g[r] = Glommer() if r == 'g1' else Glommer(register_default_types=False)
@@ -293,20 +329,33 @@ class Env:
             sig = ('user', CALLS[0][0], CALLS[0][1])
         return sig
 
-    # -- projection of the mechanism state -----------------------------------------------
+    # -- projection of the mechanism state (optional: private representation) ---------------
     def project(self, r, ops):
-        reg = self.registry(r)
+        """{auto, map, tree, cache} as far as the private attributes can be read in the shape the transcribed
+        mechanism talks about; a part that cannot be read is left out and counted in UNOBSERVABLE"""
         name = self.u.name
+        out = {}
 
         def ptree(t):
             return [{'t': name[k], 'sub': ptree(v)} for k, v in t.items()]
-        return dict(
-            auto=[op for op in reg._op_auto_map if op in ops],
-            map={op: [{'t': name[k], 'h': fn_tag(h)} for k, h in reg._op_type_map.get(op, {}).items()] for op in ops},
-            tree={op: ptree(reg._op_type_tree.get(op, {})) for op in ops},
-            cache=[{'t': name[k[0]], 'op': k[1], 'h': fn_tag(h)} for k, h in reg._type_cache.items() if k[1] in ops])
+
+        def part(key, f):
+            try:
+                out[key] = f(self.registry(r))
+            except Exception:
+                UNOBSERVABLE[key] = UNOBSERVABLE.get(key, 0) + 1
+        part('auto', lambda reg: [op for op in reg._op_auto_map if op in ops])
+        part('map', lambda reg: {op: [{'t': name[k], 'h': fn_tag(h)} for k, h in reg._op_type_map.get(op, {}).items()]
+                                 for op in ops})
+        part('tree', lambda reg: {op: ptree(reg._op_type_tree.get(op, {})) for op in ops})
+        part('cache', lambda reg: [{'t': name[k[0]], 'op': k[1], 'h': fn_tag(h)} for k, h in reg._type_cache.items()
+                                   if k[1] in ops])
+        return out
 
     def cached(self, r, op, tname):
-        reg = self.registry(r)
-        h = reg._type_cache.get((self.u.real[tname], op), False)
-        return fn_tag(h)
+        """memoised handler for (type, op), or None when the memo cannot be read"""
+        try:
+            return fn_tag(self.registry(r)._type_cache.get((self.u.real[tname], op), False))
+        except Exception:
+            UNOBSERVABLE['cache'] = UNOBSERVABLE.get('cache', 0) + 1
+            return None
